@@ -163,7 +163,7 @@ def run(ctx):
             return None
         mk = model_coefmap(ans)
         ik = (kind_of(v, impl), coefmap(v, impl))
-        if ik == ('poly', {}):
+        if ik == ('poly', {}) and hasattr(v, 'gs') and len(v.gs) == 0:     # no terms at all (not: terms with coefficient zero)
             ik = ('poly', {}, int(v.N))
         if mk != ik:
             ctx.mismatch(op, desc, str(mk)[:600], str(ik)[:600])
@@ -274,7 +274,7 @@ def run(ctx):
         ctx.drv.ask('P set rr poly %s' % E.epoly([O.to_g(t[0][0]) for t in terms], [t[0][1] for t in terms], [t[1] for t in terms]))
         ans = ctx.drv.ask('P reduce rq rr 1 10000000000')
         ctx.count('corr:reduce')
-        if model_coefmap(ans) != (('poly', got) if got else ('poly', {}, n)):
+        if model_coefmap(ans) != (('poly', got) if len(red.gs) else ('poly', {}, n)):
             ctx.mismatch('reduce', str(terms)[:300], str(model_coefmap(ans))[:400], str(got)[:400])
         strs = [O.from_gp(g, 0)[0] for g in np.asarray(red.gs)]
         ctx.case(('reduce', str(terms)), len(full) >= 2, sample=dict(op='reduce', terms=len(terms), kept=len(got)))
